@@ -46,6 +46,18 @@ Qed.
 Lemma target_hidden_not_oof m t e : target_hidden m t e <> OutOfFuel.
 Proof. unfold target_hidden. destruct (assoc t m); discriminate. Qed.
 
+Lemma target_hidden_not_panic m t e : target_hidden m t e <> Panic.
+Proof. unfold target_hidden. destruct (assoc t m); discriminate. Qed.
+
+Lemma foldM_no_panic {X} (h : st -> X -> outcome st) l :
+  (forall s y, In y l -> h s y <> Panic) -> forall s, foldM h s l <> Panic.
+Proof.
+  induction l as [|y r IH]; intros Hh s; cbn [foldM]; [discriminate|].
+  pose proof (Hh s y (or_introl eq_refl)) as Hy.
+  destruct (h s y) as [s1| |]; [|contradiction|discriminate].
+  apply IH. intros s0 y0 Hin. apply Hh. right. exact Hin.
+Qed.
+
 Section Term.
   Variable m : module.
   Variable listed excludes passthrough : list id.
@@ -158,6 +170,49 @@ Section Term.
       + intros n [].
       + eapply In_all_targets; [apply assoc_In, Ha|exact Hep|exact Hc].
       + unfold fuel_bound in Hf. cbn [length]. lia.
+  Qed.
+
+  (* ---------- no panic is left in the builder (undefined call targets go through nil-safe getters) ---------- *)
+  Lemma pep_no_panic g : forall f stk src sep s t e, pep g f stk src sep s t e <> Panic.
+  Proof.
+    induction f as [|f IH]; intros stk src sep s t e; [discriminate|].
+    rewrite pep_S.
+    destruct (mem t excludes); [discriminate|].
+    destruct (target_human m t); [discriminate|].
+    destruct (target_hidden m t e) as [h| |] eqn:Eh; [|exfalso; revert Eh; apply target_hidden_not_panic|discriminate].
+    cbv zeta.
+    destruct (mem t passthrough); [|discriminate].
+    destruct (g && nmem (t, e) stk); [discriminate|].
+    destruct (assoc t m) as [a|]; [|discriminate].
+    destruct (assoc e (eps a)) as [ep|]; [|discriminate].
+    rewrite walk_fold. apply foldM_no_panic. intros s0 [t0 e0] _. unfold uncur. cbn [fst snd]. apply IH.
+  Qed.
+  Lemma my_callers_no_panic x src sep s t e : my_callers m listed excludes x src sep s t e <> Panic.
+  Proof.
+    unfold my_callers. destruct (mem src excludes); [discriminate|].
+    destruct (negb _); [discriminate|]. destruct (target_human m t); [discriminate|].
+    unfold target_hidden. destruct (assoc t m); discriminate.
+  Qed.
+  Lemma indirect_no_panic fs src sep s t e : indirect m fs src sep s t e <> Panic.
+  Proof.
+    unfold indirect. destruct (negb _); [discriminate|]. destruct (target_human m t); [discriminate|].
+    unfold target_hidden. destruct (assoc t m) as [a|]; [destruct (match assoc e (eps a) with Some x0 => hidden x0 | None => false end)|]; discriminate.
+  Qed.
+  Lemma over_apps_no_panic h apps s :
+    (forall a sep s t e, h a sep s t e <> Panic) -> over_apps m h apps s <> Panic.
+  Proof.
+    intros Hh. rewrite over_apps_fold. apply foldM_no_panic. intros s0 [[[a sep] t] e] _. apply Hh.
+  Qed.
+
+  Theorem build_never_panics g x fuel : build m listed excludes passthrough g x fuel <> Panic.
+  Proof.
+    unfold build.
+    set (s0 := {| deps := []; final := seeds m listed excludes x |}).
+    destruct (over_apps m (pep g fuel []) (seeds m listed excludes x) s0) as [s1| |] eqn:E1; [| |discriminate].
+    - destruct (over_apps m (my_callers m listed excludes x) (map fst m) s1) as [s2| |] eqn:E2; [| |discriminate].
+      + apply over_apps_no_panic. intros. apply indirect_no_panic.
+      + exfalso. revert E2. apply over_apps_no_panic. intros. apply my_callers_no_panic.
+    - exfalso. revert E1. apply over_apps_no_panic. intros. apply pep_no_panic.
   Qed.
 
   (* ---------- where the unguarded walk terminates, the guard changes nothing ---------- *)
